@@ -50,3 +50,13 @@ check("C08", "fault_enumeration", "exhaustive enumeration of source-reader fault
 for e in ENGINES:
     if e["name"] in ("mcrt", "instrument"):
         e["serves_properties"] = sorted(set(e["serves_properties"] + ["C08"]))
+
+ENGINES += [
+ {"name": "fakereg", "path": "engine/fakereg", "serves_properties": ["C09"], "kind_free_text": "in-process registry + CDN http.RoundTripper: requests and body reads are scheduling points with an explorer-chosen fault menu (status errors, resets, truncated/flipped bodies, ignored Range, stalls, broken chunk plans, auth challenges); upload endpoints with an acceptance log"},
+]
+check("C09", "fault_enumeration", "exhaustive enumeration (deviation-bounded DFS under the controlled runtime) of network faults, chunk plans, cancellation points, chunk completion orders and retry histories of the real Registry.Pull/Push",
+      "The real ollama.Registry over the real blob.DiskCache runs against the in-process registry; for each scenario (layers on both sides of the chunking threshold, stream limits, replaced tag, push) every execution of [faulty attempt -> fault-free attempt] within the bounds is run: each request may fail (5xx, reset, truncated/flipped body, ignored Range, stall until the read timeout on the virtual clock), chunk plans may be broken, the client may cancel at any point, chunk goroutines interleave. Oracle after every attempt and at every FS mutation: success => every layer has the manifest's size and sha256 and the name is linked to the served manifest; failure => if the name resolves, to a complete model; linked only after layers are complete; the clean retry succeeds; push: manifest PUT only after every layer was accepted.",
+      "Go toolchain; instrumenter + mcrt/mcos/fakereg; legacy push path (server/upload.go) not yet covered; bounds in evidence.", "DESIGN.md 3/C09", "fakereg")
+for e in ENGINES:
+    if e["name"] in ("mcrt", "instrument", "mcos"):
+        e["serves_properties"] = sorted(set(e["serves_properties"] + ["C09"]))
